@@ -109,7 +109,7 @@ def strat_state(draw, tier):
               for _ in range(nblocks)]
     text_blocks = draw(st.booleans())
     if text_blocks:
-        blocks = [b64(draw(st.text(alphabet="abc \né", max_size=8))
+        blocks = [b64(draw(st.text(alphabet="abc \né\0", max_size=8))
                       .encode("utf-8")[:iobuf_size]) for _ in range(nblocks)]
         blocks = [b64(base64.b64decode(b).decode("utf-8", "ignore")
                       .encode("utf-8")) for b in blocks]
